@@ -161,7 +161,18 @@ fn judge(b: &Base, thorough: bool, l: &mut Local) {
     let base_obs = run::assemble_str(&base_src, &Opts::iters(30));
     let base_out = outcome(&base_obs);
     // the base itself must agree with the reference (C01's claim; otherwise no metamorphic verdict)
-    if c01::disagreement(&base_obs, &r).is_some() {
+    if let Some(kind) = c01::disagreement(&base_obs, &r) {
+        if b.family == "literal-vs-expression" {
+            // here the base itself is the claim: the name is declared as a symbol AND spelled literally by a pattern;
+            // the literal reading must win
+            l.violation(Violation {
+                property: ID,
+                key: "C07:literal-spelling-does-not-take-precedence".into(),
+                what: format!("{}: a symbol is named like a literal the pattern spells, the result is not that of the literal reading: {}", kind, base_src.replace('\n', " / ")),
+                case: json!({"family": b.family, "variant": "base", "program": base_src, "expected": c01::ref_summary(&r), "observed": base_obs.summary()}),
+            });
+            return;
+        }
         l.count("base_disagrees_with_reference_left_to_C01", 1);
         return;
     }
@@ -398,6 +409,18 @@ pub fn run(ctx: &Ctx) -> Report {
             judge(&Base { prog, instr: 4, family: "literal-vs-expression" }, ctx.thorough, l);
         }
     }));
+    // the same for single templates whose operands are sub-rules with literal alternatives (`a`, `r1`, `b`)
+    let shadow: Vec<usize> = (0..pool.len()).filter(|i| pool[*i].needs_reg).collect();
+    rep.absorb(par_cases(&shadow, |a, l| {
+        for ln in own[*a].iter() {
+            let mut prog = c01::f1_prog(&[&pool[*a]], ln);
+            let at = prog.items.iter().position(|i| matches!(i, Item::Instr(_))).unwrap_or(0);
+            for (n, v) in [("a", "0x55"), ("r1", "0x66"), ("b", "0x77")] {
+                prog.items.insert(0, Item::Const(n.into(), v.into()));
+            }
+            judge(&Base { prog, instr: at + 3, family: "literal-vs-expression" }, ctx.thorough, l);
+        }
+    }));
     rep.assumptions = vec!["blanks are only added at token boundaries; removing a blank the pattern requires is outside the property".into(), "bases the reference cannot decide (value-dependent sizes etc.) are skipped and counted".into()];
     for c in ["letter-case-of-instruction", "letter-case-of-rule-text", "extra-blank-at-token-boundary", "extra-blank-at-every-token-boundary", "trailing-comment", "rule-order", "rule-partition", "label-renaming"] {
         rep.require_class(c);
@@ -406,6 +429,10 @@ pub fn run(ctx: &Ctx) -> Report {
 }
 
 pub fn replay(ctx: &Ctx, case: &serde_json::Value) -> i32 {
+    if case["variant"] == "base" {
+        // a direct claim (literal precedence): the program against the reference verdict recorded with it
+        return c01::replay(ctx, case);
+    }
     super::replay_with(ctx, case, |case, l| {
         let base = run::assemble_str(case["base"].as_str().unwrap_or(""), &Opts::iters(30));
         let var = run::assemble_str(case["variant"].as_str().unwrap_or(""), &Opts::iters(30));
